@@ -15,16 +15,17 @@
   Helper lemmas: EG/Lemmas/C01ThickStream.lean (fuel-free runs of the model iterators),
   EG/Lemmas/C01ThickPoly.lean.
 
-  Guards (both decidable, both `True` on every op of the `thick.polyline` stream):
-  * `PolyRectsInRange pl w` — no `fill_solid` rectangle saturates `i32` (`Rect.InRange`);
-  * `PolyPixelBudgetOK pl w` — a MODEL artefact, not a condition on the code: the model drains
-    `pixels()` with fuel `polyPixelBudget bb * (n + 1)` and returns the prefix seen when the fuel is
-    used up; the guard says the list is shorter than the fuel, i.e. complete. (The scanline side
-    needs no such guard: `toList`'s fuel `stepBudget` is proved never to be used up.) It can be
-    replaced by C02's `PolyBBoxGuard` (`styled_polyline_paths_agree_of_bbox_guard`): the budget
-    suffices whenever everything drawn lies inside the bounding box (EG/Lemmas/C01ThickBudget.lean).
+  Guard (decidable, `True` on every op of the `thick.polyline` stream):
+  * `PolyRectsInRange pl w` — no `fill_solid` rectangle saturates `i32` (`Rect.InRange`).
+  No fuel guard: the model drains `pixels()` with the total length of the scanline run as fuel, which
+  is PROVED sufficient (`styled_polyline_same_scanlines`: the model's pixel list is the complete run),
+  like `toList`'s fuel `stepBudget` on the scanline side.
+  (The polyline's `ScanlineIterator::next` is a `loop` over the rows: it returns `None` only after
+  the last row and keeps returning `None` then, so the `None` that `StyledPixelsIterator::new`
+  forgives is final; unlike the triangle's iterator — Props/C01/Triangle.lean — it is fused in effect.)
 -/
-import EG.Lemmas.C01ThickBudget
+import EG.Lemmas.C01ThickPoly
+import EG.Lemmas.JoinsBBoxPolyMain
 namespace EG.C01.Polyline
 open EG EG.Tgt EG.Joins EG.C01Thick
 
@@ -67,54 +68,29 @@ theorem styled_polyline_width1 (pl : Polyline) (c : Color) :
   ⟨rfl, rfl⟩
 
 /-- Stroke width > 1: `draw()` issues one `fill_solid` per scanline of the scanline run `L` (all
-non-empty), `pixels()` yields the points of the same scanlines in the same order. -/
-theorem styled_polyline_same_scanlines (pl : Polyline) (w : Nat) (hw : 2 ≤ w)
-    (hb : PolyPixelBudgetOK pl w) (ps : List Pt) (hps : pixels pl w = some ps) :
+non-empty), `pixels()` yields the points of the same scanlines in the same order — ALL of them: the
+model's pixel list is complete (the fuel of its drain is never used up; no guard). -/
+theorem styled_polyline_same_scanlines (pl : Polyline) (w : Nat) (hw : 2 ≤ w) :
     ∃ L : List Scanline, (∀ s ∈ L, s.isEmpty = false) ∧
       drawStyled pl w = some (.fillSolids (L.map (fun s => (moveS s pl.translate).toRectangle))) ∧
-      ps = L.flatMap (fun s => (moveS s pl.translate).points) := by
-  obtain ⟨bb, hbb⟩ := untranslatedBoundingBox_total pl w
+      pixels pl w = some (L.flatMap (fun s => (moveS s pl.translate).points)) := by
   obtain ⟨L, hL, hne, hd⟩ := drawStyled_eq_run pl w hw
-  have hlt : ps.length < polyPixelBudget bb * (pl.vertices.length + 1) := by
-    unfold PolyPixelBudgetOK at hb
-    rw [hps, hbb] at hb
-    rcases hb with hb | hb
-    · omega
-    · exact hb
-  obtain ⟨L', hL', hps'⟩ := pixels_eq_run pl w hw bb hbb ps hps hlt
+  obtain ⟨L', hL', hps'⟩ := pixels_eq_run pl w hw
   rw [hL] at hL'
   simp only [Option.some.injEq] at hL'
   subst hL'
   exact ⟨L, hne, hd, hps'⟩
-example : PolyPixelBudgetOK ⟨⟨1, -2⟩, [⟨0, 0⟩, ⟨6, 3⟩, ⟨2, 7⟩]⟩ 4 := by decide +kernel
-
-/-- Whatever the model's pixel budget: `pixels()` of the model is the first `budget` points of the
-scanlines `draw()` turns into rectangles, walked in the same order — the only way
-`PolyPixelBudgetOK` can fail is truncation of the model's list (no guard). -/
-theorem styled_polyline_pixels_prefix (pl : Polyline) (w : Nat) (hw : 2 ≤ w) (bb : Rect)
-    (hbb : untranslatedBoundingBox pl w = some bb) :
-    ∃ L : List Scanline, (∀ s ∈ L, s.isEmpty = false) ∧
-      drawStyled pl w = some (.fillSolids (L.map (fun s => (moveS s pl.translate).toRectangle))) ∧
-      pixels pl w = some ((L.flatMap (fun s => (moveS s pl.translate).points)).take
-        (polyPixelBudget bb * (pl.vertices.length + 1))) := by
-  obtain ⟨L, hL, hne, hd⟩ := drawStyled_eq_run pl w hw
-  obtain ⟨L', hL', hps⟩ := pixels_prefix_run pl w hw bb hbb
-  rw [hL] at hL'
-  simp only [Option.some.injEq] at hL'
-  subst hL'
-  exact ⟨L, hne, hd, hps⟩
-example : ∃ bb, untranslatedBoundingBox ⟨⟨1, -2⟩, [⟨0, 0⟩, ⟨6, 3⟩, ⟨2, 7⟩]⟩ 4 = some bb :=
-  untranslatedBoundingBox_total _ _
+example : (pixels ⟨⟨1, -2⟩, [⟨0, 0⟩, ⟨6, 3⟩, ⟨2, 7⟩]⟩ 4).map List.length = some 54 := by decide +kernel
 
 /-- **Write sequences.** For every stroked polyline, width, colour option and target box: the writes
 of `draw()` — natively (R2) and through the trait defaults (R1) — are exactly the pixels of
 `pixels()` clipped to the box: same points, same colour, same order. -/
 theorem styled_polyline_writes_agree (pl : Polyline) (w : Nat) (sc : Option Color)
-    (hr : PolyRectsInRange pl w) (hb : PolyPixelBudgetOK pl w) (calls : List Call) (px : Writes)
+    (hr : PolyRectsInRange pl w) (calls : List Call) (px : Writes)
     (hc : polyStyledCalls pl w sc = some calls) (hp : polyStyledPixels pl w sc = some px) (B : Rect) :
     calls.flatMap (Call.writesNative B) = clipWrites B px ∧
     calls.flatMap (Call.writesDefault B) = clipWrites B px := by
-  have h := polyStyled_writes pl w sc B hr hb calls px hc hp
+  have h := polyStyled_writes pl w sc B hr calls px hc hp
   have hn : calls.flatMap (Call.writesNative B) = clipWrites B px := by
     rw [← h]
     unfold Call.writesNative clipWrites
@@ -122,39 +98,22 @@ theorem styled_polyline_writes_agree (pl : Polyline) (w : Nat) (sc : Option Colo
   refine ⟨hn, ?_⟩
   rw [← hn]
   exact flatMap_congr_left _ _ _ (fun c _ => Call.writesDefault_eq_writesNative B c)
-example : PolyRectsInRange ⟨⟨1, -2⟩, [⟨0, 0⟩, ⟨6, 3⟩, ⟨2, 7⟩]⟩ 4 ∧
-    PolyPixelBudgetOK ⟨⟨1, -2⟩, [⟨0, 0⟩, ⟨6, 3⟩, ⟨2, 7⟩]⟩ 4 := by decide +kernel
+example : PolyRectsInRange ⟨⟨1, -2⟩, [⟨0, 0⟩, ⟨6, 3⟩, ⟨2, 7⟩]⟩ 4 := by decide +kernel
 
 /-- **Styled polyline: `draw()` on R1 = `draw()` on R2 = `draw_iter(pixels())`**, as pixel maps, for
-every vertex list, `translate`, stroke width, colour option and target box. -/
-theorem styled_polyline_paths_agree_partial (pl : Polyline) (w : Nat) (sc : Option Color)
-    (hr : PolyRectsInRange pl w) (hb : PolyPixelBudgetOK pl w) : StyledPolylinePathsAgree pl w sc := by
+every vertex list, `translate`, stroke width, colour option and target box. Guard: no rectangle
+saturates `i32`. -/
+theorem styled_polyline_paths_agree (pl : Polyline) (w : Nat) (sc : Option Color)
+    (hr : PolyRectsInRange pl w) : StyledPolylinePathsAgree pl w sc := by
   intro calls px hc hp B p
-  obtain ⟨h1, h2⟩ := styled_polyline_writes_agree pl w sc hr hb calls px hc hp B
+  obtain ⟨h1, h2⟩ := styled_polyline_writes_agree pl w sc hr calls px hc hp B
   rw [runDefault_drawIter]
   unfold runNative runDefault
   rw [h1, h2]
   exact ⟨rfl, rfl⟩
-example : PolyRectsInRange ⟨⟨0, 0⟩, [⟨-4, 1⟩, ⟨0, -2⟩, ⟨2, -5⟩, ⟨-4, 1⟩]⟩ 2 ∧
-    PolyPixelBudgetOK ⟨⟨0, 0⟩, [⟨-4, 1⟩, ⟨0, -2⟩, ⟨2, -5⟩, ⟨-4, 1⟩]⟩ 2 := by decide +kernel
-
-/-- The model's pixel budget suffices whenever no `fill_solid` rectangle of `draw()` is wider than the
-bounding box and the top row of the box is an `i32` — a consequence of C02's claim "everything drawn
-lies inside `bounding_box()`", so the budget guard is not an independent assumption. -/
-theorem polyline_pixel_budget_ok_of_widths (pl : Polyline) (w : Nat)
-    (h : ∀ d bb, drawStyled pl w = some d → untranslatedBoundingBox pl w = some bb →
-      -2147483648 ≤ bb.tl.y ∧ ∀ r ∈ polyRects d, r.size.w ≤ bb.size.w) : PolyPixelBudgetOK pl w :=
-  polyPixelBudgetOK_of_widths pl w h
-
-/-- **Styled polyline, the three paths agree, under the guard of C02's bounding-box theorem**
-(`PolyBBoxGuard`, Props/C02/JoinsBBox.lean: the top row of the box is an `i32` and no left-side
-filler line escapes the box) instead of the budget guard: there everything drawn lies inside the
-bounding box, hence the pixel budget of the model suffices. -/
-theorem styled_polyline_paths_agree_of_bbox_guard (pl : Polyline) (w : Nat) (sc : Option Color)
-    (hr : PolyRectsInRange pl w) (hg : PolyBBoxGuard pl w) : StyledPolylinePathsAgree pl w sc :=
-  styled_polyline_paths_agree_partial pl w sc hr (polyPixelBudgetOK_of_bboxGuard pl w hg)
-example : PolyRectsInRange ⟨⟨-7, -9⟩, [⟨0, 0⟩, ⟨9, 1⟩, ⟨0, 2⟩, ⟨0, 2⟩, ⟨4, -6⟩]⟩ 5 ∧
-    PolyBBoxGuard ⟨⟨-7, -9⟩, [⟨0, 0⟩, ⟨9, 1⟩, ⟨0, 2⟩, ⟨0, 2⟩, ⟨4, -6⟩]⟩ 5 := by decide +kernel
+-- a closed polyline whose segments cross; a polyline with a repeated vertex and a sharp turn, moved by `translate`
+example : PolyRectsInRange ⟨⟨0, 0⟩, [⟨-4, 1⟩, ⟨0, -2⟩, ⟨2, -5⟩, ⟨-4, 1⟩]⟩ 2 := by decide +kernel
+example : PolyRectsInRange ⟨⟨-7, -9⟩, [⟨0, 0⟩, ⟨9, 1⟩, ⟨0, 2⟩, ⟨0, 2⟩, ⟨4, -6⟩]⟩ 5 := by decide +kernel
 
 /-- `draw()` of a styled polyline: draw_iter-only target = native-fill target (no guard). -/
 theorem styled_polyline_default_eq_native (pl : Polyline) (w : Nat) (sc : Option Color) (B : Rect)
@@ -208,6 +167,5 @@ example : (drawStyled ⟨⟨1, -2⟩, [⟨0, 0⟩, ⟨6, 3⟩, ⟨2, 7⟩]⟩ 4)
     PolyRectsInRange ⟨⟨1, -2⟩, [⟨0, 0⟩, ⟨6, 3⟩, ⟨2, 7⟩]⟩ 4 := by decide +kernel
 
 -- [V] styled polyline: that `draw()` issues the same call list whatever the target type (Rust parametricity of `draw_styled` in `D: DrawTarget`; `Translated::fill_solid` moving the rectangle by `translate`): carried by correspondence + oracle only (stream `thick.polyline`: R2 call log `draw=`, pixel sequence `px=`, class `C01:pixels-vs-draw:thick-polyline`)
--- [V] styled polyline of width > 1: that the pixel list of the model is complete (`PolyPixelBudgetOK`: fuel of the model's drain of `pixels()`; decidable, true on every op of the stream) for ALL inputs — proved under C02's `PolyBBoxGuard` (`styled_polyline_paths_agree_of_bbox_guard`) and whenever no rectangle is wider than the bounding box; otherwise: carried by correspondence + oracle only (a truncated list would disagree with the real `px=`; `styled_polyline_pixels_prefix`: truncation is the only way to fail)
 
 end EG.C01.Polyline
